@@ -35,6 +35,16 @@ CHECKS = {
          "The rules are evaluated by TLC from raw logged fields (inputs, outputs, sizes, unspent set, head time, parameters); sigsOK by construction; TLC/SANY/Json trusted.",
          "TLA+ spec + TLC exhaustive model checking of the design; record->validate of real visor pool operations by TLC",
          "DESIGN.md 4.1, 5 C06, 9"),
+ "C07": ("views", "exploration",
+         "ViewRecords.tla derives every query view from the accepted chain (read back block by block), the unspent projection and the unconfirmed pool: unspent set = created - spent, per-address unspent index, address count, checksum (recomputed by the recorder with crypto/sha256), which block and transaction spent each output ever created, transaction lists per address (confirmed, pending, both, all), confirmed and predicted balances (pending transactions whose inputs are gone do not count), last blocks, block ranges. A real publisher and follower visor are observed at chosen points of seeded histories: head still genesis with a pending transaction, pending pool, right after a block before the pool is pruned, end of round, and after the address index or the history marker was dropped in the bolt file and the node restarted (rebuild).",
+         "One recorded known finding (pending transactions that only spend from an address are not listed for it); ordering of listings is not part of the statement and is not checked; sampling over histories.",
+         "TLA+ derivations (executable specification) evaluated by TLC on view records of real visors",
+         "DESIGN.md 5 C07, 9"),
+ "C10": ("txn", "exploration",
+         "A third party holds no keys, so every change it can make to a valid signed transaction or block is a byte-level edit: the recorder applies each named edit (the other ECDSA solution n-s with flipped recovery id, recovery id +4/+27/high bit/xor, r+n, bit flips in r, s and in every header and body field, reordered inputs/outputs/transactions, appended or dropped bytes, recomputed unsigned header fields) to every transaction and block of seeded histories and offers the result to a real follower visor in the same role (InjectForeignTransaction / ExecuteSignedBlock / DeserializeTransaction). TxnRecords.tla: accepted implies unchanged. Every signature the real code produced is logged: low s and recovery id < 4.",
+         "Curve arithmetic is not modelled (C14); the edit list is finite and named, positions are sampled.",
+         "TLA+ predicate evaluated by TLC on recorded offers of systematically modified objects to a real visor",
+         "DESIGN.md 5 C10, 9"),
  "C09": ("txn", "exploration",
          "TxnRules.tla states well-formedness as a predicate over a transaction's raw fields (inputs, outputs, signature forms by construction, type, length field vs measured size, inner hash). The complete decision table of the small abstract domain (0..2 inputs and outputs, every fault on/off, every signature valid / null / non-canonical: 4224 vectors) is built as real transactions and passed to Verify and VerifyUnsigned; plus seeded random vectors with up to 3 inputs/outputs and four kinds of unacceptable signature, and DeserializeTransaction on mutated byte strings (decodes => re-encodes to the same bytes, never panics). TLC evaluates the predicate on every record.",
          "Exhaustive over the stated abstract domain, sampling beyond it; arbitrary byte strings are sampled; signature forms are what the recorder constructed.",
@@ -129,7 +139,7 @@ def main():
         else:
             m["not_applicable"].append({"property_id": pid, "reason": NOT_APPLICABLE.get(pid, PENDING)})
     for eng, ps in engines.items():
-        m["engines"].append({"name": eng, "path": "engines/%s.py + specs/%s" % (eng, eng), "serves_properties": ps,
+        m["engines"].append({"name": eng, "path": "engines/%s.py + specs/%s" % (eng, {"pool": "ledger", "txn": "ledger", "views": "ledger"}.get(eng, eng)), "serves_properties": ps,
                              "kind_free_text": "TLA+ specification + TLC (model checking, behaviour generation, trace validation) bound to the Go code by recorders/replayers"})
     with open(os.path.join(HERE, "MANIFEST.json"), "w") as fh:
         json.dump(m, fh, indent=1)
